@@ -13,6 +13,8 @@ from reactivex.disposable import (
 from reactivex.internal import add_ref, curry_flip, noop
 from reactivex.subject import Subject
 
+from ._groupjoin import group_join_
+
 log = logging.getLogger("Rx")
 
 _T = TypeVar("_T")
@@ -40,11 +42,13 @@ def window_toggle_(
         _, window = args
         return window
 
+    # The windows that are still open when the source completes end with it.
     return openings.pipe(
-        ops.group_join(
+        group_join_(
             source,
             closing_mapper,
             lambda _: empty(),
+            complete_groups_with_right=True,
         ),
         ops.map(mapper),
     )
